@@ -574,3 +574,38 @@ def stack_use_is_true_depth(op, k, width):
     ext = PS.T2StackUseExtractor([], [], private=cs.private)
     depth = ext.execute(cs)
     ob('max-depth', depth == max(k, 2 + width))
+
+
+@kernel('C12', funcs=['cffLib/transforms.py:remove_unused_subroutines', 'cffLib/transforms.py:_MarkingT2Decompiler.op_callgsubr', 'cffLib/transforms.py:_cs_subset_subroutines',
+                      'misc/psCharStrings.py:calcSubrBias'],
+        bounds='a glyph calling `used` of `total` global subroutines, with (total, used) on both sides of the bias thresholds of the Type 2 format (1240: bias 107 -> '
+               '1131); a few subroutine operands symbolic: after remove_unused_subroutines the glyph draws the same outline (call operands are re-encoded for the '
+               'bias of the PRUNED subroutine list) and no unused subroutine is left',
+        quick=[dict(total=1245, used=1235), dict(total=30, used=20)], thorough=[dict(total=t, used=u) for t, u in ((1245, 1235), (30, 20), (1300, 1250), (1240, 1239), (1239, 1239))])
+def prune_subrs_keeps_outline(total, used):
+    from fontTools.cffLib import GlobalSubrsIndex
+    G = GlobalSubrsIndex()
+    priv = _Private(0, 500, [])
+    del priv.Subrs
+    sym = {0: (V.real('s0x', -50, 50), V.real('s0y', -50, 50)), used - 1: (V.real('s1x', -50, 50), V.real('s1y', -50, 50)), used // 2: (V.real('s2x', -50, 50), V.real('s2y', -50, 50))}
+    for i in range(total):
+        dx, dy = sym.get(i, ((i % 7) - 3, (i % 5) - 2))
+        G.append(T2CharString(program=[dx, dy, 'rlineto', 'return'], private=priv, globalSubrs=G))
+    bias = PS.calcSubrBias(G)
+    prog = [10, 20, 'rmoveto']
+    for i in range(used):
+        prog += [i - bias, 'callgsubr']
+    prog.append('endchar')
+    cs = T2CharString(program=prog, private=priv, globalSubrs=G)
+    before, w0 = _draw_cs(cs)
+    font = type('F', (), {})()
+    font.CharStrings, font.GlobalSubrs, font.Private = {'A': cs}, G, priv
+
+    class Set(dict):
+        pass
+    TRF.remove_unused_subroutines(Set(f=font))
+    after, w1 = _draw_cs(cs)
+    observe('n_subrs_left', len(G))
+    ob('unused-subroutines-removed', len(G) == used)
+    ob('same-outline', events_eq(before, after))
+    ob('same-width', eq(w0, w1))
